@@ -242,6 +242,10 @@ def _app_post(ctx):
         else:
             REC.held(mon, sig, "C09:append:type-mismatch")
         return
+    if not snap.snap_equal(snap.tier_snap(ctx.self_), sa) or not snap.snap_equal(snap.tier_snap(ctx.arg(0, "tier")), sb):
+        REC.violation(PROP, mon, "appendTier", case, "appendTier changed one of its operands: A %r -> %r, B %r -> %r" % (
+            sa["entries"], snap.tier_snap(ctx.self_)["entries"], sb["entries"], snap.tier_snap(ctx.arg(0, "tier"))["entries"]), sig, mech)
+        return
     exp, lo, hi = M.append(sa["t"], ents_of(sa), sa["min"], sa["max"], ents_of(sb), sb["max"])
     if not M.representable(exp):
         REC.skip(mon, "unrepresentable-result")
